@@ -116,6 +116,8 @@ func genDescription(t *rapid.T, pool []string, serveBias bool) Case {
 				op.Body = rapid.IntRange(0, 9).Draw(t, "body") < 8
 			case "get", "delete":
 				op.Body = rapid.IntRange(0, 9).Draw(t, "body") < 1
+			case "options":
+				op.Body = rapid.IntRange(0, 9).Draw(t, "body") < 3 // an OPTIONS request may carry a payload (RFC 7231 4.3.7)
 			}
 			op.Consumes = maybeTypes(t, "ocons", pool, pNone)
 			op.Produces = maybeTypes(t, "oprod", pool, pNone)
@@ -320,6 +322,7 @@ func applyEdit(t *rapid.T, c *Case, harmlessOnly bool) {
 // jsonChoice decides the JSON defaults of the API and whether the exact registration spells the JSON pair out.
 func jsonChoice(t *rapid.T, c *Case, pool []string, pKeep, pFix int) {
 	c.JSONDefaults = rapid.IntRange(0, 99).Draw(t, "jsondefaults") < pKeep
+	c.LateGlobals = rapid.IntRange(0, 3).Draw(t, "globals-set-after-loading") == 0
 	if c.JSONDefaults {
 		if rapid.IntRange(0, 99).Draw(t, "jsonfix") < pFix {
 			// a description that names the JSON type in both directions, so that the defaults are required
@@ -389,6 +392,14 @@ func Classify(c Case) (bool, []string) {
 	nt := len(c.Edits) > 0 || ff >= 0
 	if len(c.Edits) == 0 {
 		labels["registrations: exact calls"] = true
+	}
+	if c.LateGlobals && (len(c.Consumes) > 0 || len(c.Produces) > 0) {
+		labels["top-level consumes/produces set on the loaded document"] = true
+	}
+	for _, op := range c.Ops {
+		if op.Method == "options" && op.Body {
+			labels["OPTIONS operation with a payload"] = true
+		}
 	}
 	for _, e := range c.Edits {
 		labels["edit "+e] = true
